@@ -812,7 +812,11 @@ private:
 
               // Use atomic CAS to safely claim exit slot - prevents race where multiple
               // threads simultaneously decide to exit and drop below _initialSize
-              if (_workerScaling)
+              // A worker that spawnWorker() has not registered in _threads yet must
+              // not exit: its entry would be added afterwards and stay behind as a
+              // dead thread that still counts against _maxSize, so no replacement is
+              // ever spawned and queued tasks never run. (_mutex is held here.)
+              if (_workerScaling && _threads.find(std::this_thread::get_id()) != _threads.end())
               {
                 int currentExited = _threadsExited.load(std::memory_order_acquire);
                 bool claimedExitSlot = false;
